@@ -302,18 +302,21 @@ class Ctx:
         cov.update(self.extra)
         ev = dict(property_id=self.prop, tier=self.tier, seed=self.seed, level=level, coverage=cov,
                   assumptions=self.assumptions, wall_s=round(time.time() - self.t0, 2), violations=len(fresh))
-        os.makedirs(os.path.join(VERIF, "evidence"), exist_ok=True)
+        # (seeded-change experiments against a scratch worktree - VERIF_REPO - redirect their outputs with VERIF_OUT_DIR
+        # so that the evidence of the real tree is not overwritten)
+        outdir = os.environ.get("VERIF_OUT_DIR", VERIF)
+        os.makedirs(os.path.join(outdir, "evidence"), exist_ok=True)
         if not self.replay:
-            json.dump(ev, open(os.path.join(VERIF, "evidence", f"{self.prop}.json"), "w"), indent=1, default=str)
+            json.dump(ev, open(os.path.join(outdir, "evidence", f"{self.prop}.json"), "w"), indent=1, default=str)
         if fresh:
-            os.makedirs(os.path.join(VERIF, "replay"), exist_ok=True)
+            os.makedirs(os.path.join(outdir, "replay"), exist_ok=True)
             seen = set()
             for v in fresh:
                 key = sha(v["sig"])
                 if key in seen:
                     continue
                 seen.add(key)
-                rp = os.path.join(VERIF, "replay", f"{self.prop}-{self.seed}-{key[:8]}.json")
+                rp = os.path.join(outdir, "replay", f"{self.prop}-{self.seed}-{key[:8]}.json")
                 json.dump(dict(property=self.prop, tier=self.tier, seed=self.seed, sig=v["sig"], what=v["what"],
                                case=v["case"], observation=v["obs"]), open(rp, "w"), indent=1, default=str)
                 print(f"VIOLATION property={self.prop} replay={rp}")
